@@ -171,6 +171,21 @@ class RecD:
         return o
 
 
+class LogRouter:
+    """re-subscription cases: a codec object logs into the Log that is current WHEN THE OBJECT IS CREATED
+    (the harness makes a fresh Log current before each subscribe call)"""
+    def __init__(self):
+        self.current = Log()
+
+    def fresh(self):
+        self.current = Log()
+        return self.current
+
+
+def _log_of(log):
+    return log.current if isinstance(log, LogRouter) else log
+
+
 _REAL = (zlib.compressobj, zlib.decompressobj, zstandard.ZstdCompressor, zstandard.ZstdDecompressor)
 
 
@@ -200,16 +215,16 @@ def patched(mode, log=None):
                 self._r = RZC(*a, **k)
 
             def compressobj(self, *a, **k):
-                return RecC(self._r.compressobj(*a, **k), log)
+                return RecC(self._r.compressobj(*a, **k), _log_of(log))
 
         class ZD:
             def __init__(self, *a, **k):
                 self._r = RZD(*a, **k)
 
             def decompressobj(self, *a, **k):
-                return RecD(self._r.decompressobj(*a, **k), log)
-        zlib.compressobj = lambda *a, **k: RecC(rc(*a, **k), log)
-        zlib.decompressobj = lambda *a, **k: RecD(rd(*a, **k), log)
+                return RecD(self._r.decompressobj(*a, **k), _log_of(log))
+        zlib.compressobj = lambda *a, **k: RecC(rc(*a, **k), _log_of(log))
+        zlib.decompressobj = lambda *a, **k: RecD(rd(*a, **k), _log_of(log))
     zstandard.ZstdCompressor, zstandard.ZstdDecompressor = ZC, ZD
     try:
         yield
@@ -423,9 +438,69 @@ def gen_bad(rng):
             'size': rng.choice([0, 10, 1000, 40000]), 're_sizes': gen_sizes(rng, False), 're_tail': rng.choice([0, 1])}
 
 
+
+# ---- re-subscription of one operator / one piped observable ------------------------------------------
+def resub_sub(rng, side, fate, size=None, big=False):
+    if size is None:
+        size = rng.choice([16384, 40000, 131073, 200000]) if big else rng.choice([0, 1, 10, 100, 1000, 1000, 5000, 20000])
+    return {'data': {'gen': rng.choice(['zeros', 'rand', 'rep', 'text', 'mixed']), 'seed': rng.randrange(10 ** 6), 'size': size},
+            'sizes': gen_sizes(rng, big), 'lead': rng.choice([0, 0, 0, 1]), 'tail': rng.choice([0, 0, 1, 2]),
+            're': gen_sizes(rng, big), 'fate': fate, 'at': rng.choice([0.0, rng.random(), rng.random(), 0.999])}
+
+
+def gen_resub(rng, tier):
+    side = rng.choice(['c', 'd'])
+    nsub = rng.choice([2, 2, 2, 3])
+    early = ['full'] * 3 + ['dispose'] * 2 + (['trunc'] if side == 'd' else [])
+    last = ['full'] * 5 + (['trunc'] if side == 'd' else [])
+    subs = [resub_sub(rng, side, rng.choice(early if j < nsub - 1 else last), big=rng.random() < 0.06) for j in range(nsub)]
+    return {'kind': 'resub', 'codec': rng.choice(['gzip', 'zstd']), 'side': side,
+            'share': rng.choice(['observable', 'observable', 'operator']),
+            'order': rng.choice(['seq', 'seq', 'seq', 'inter']), 'iseed': rng.randrange(10 ** 6), 'subs': subs}
+
+
+def exhaustive_resub(rng):
+    """wrapper x sharing x order x what happened to the FIRST subscription; the second is a plain full one"""
+    out = []
+    for codec in ('gzip', 'zstd'):
+        for side in ('c', 'd'):
+            firsts = [('full', None, 0.0), ('full', 0, 0.0), ('dispose', None, 0.0), ('dispose', None, 0.5),
+                      ('dispose', None, 0.999)] + ([('trunc', None, 0.0), ('trunc', None, 0.6)] if side == 'd' else [])
+            for share in ('observable', 'operator'):
+                for order in ('seq', 'inter'):
+                    for fate, size, at in firsts:
+                        a = resub_sub(rng, side, fate, size=size if size is not None else rng.choice([10, 100, 1000]))
+                        a['at'] = at
+                        if not any(a['sizes']):
+                            a['sizes'] = [7]
+                        b = resub_sub(rng, side, 'full', size=rng.choice([1, 10, 100, 1000]))
+                        out.append({'kind': 'resub', 'codec': codec, 'side': side, 'share': share, 'order': order,
+                                    'iseed': rng.randrange(10 ** 6), 'subs': [a, b]})
+    return out
+
+
+def resub_schedule(case, n_inputs):
+    """[(subscription index, action)]: per subscription 'sub', ('push', j)..., then 'complete' or 'dispose'.
+    order 'seq': one subscription after the other; 'inter': a random merge (two or three alive at once)."""
+    per = []
+    for i, (s, n) in enumerate(zip(case['subs'], n_inputs)):
+        if s['fate'] == 'dispose':
+            n = min(n, int(s['at'] * (n + 1)))
+        per.append([(i, 'sub')] + [(i, ('push', j)) for j in range(n)] +
+                   [(i, 'dispose' if s['fate'] == 'dispose' else 'complete')])
+    if case['order'] == 'seq':
+        return [a for p in per for a in p]
+    rng, out = random.Random(case['iseed']), []
+    while any(per):
+        p = rng.choice([p for p in per if p])
+        out.append(p.pop(0))
+    return out
+
+
 def generate(rng, tier):
     n_toy, n_real, n_ta, n_ac, n_bad = {'quick': (1200, 400, 40, 10, 80), 'thorough': (15000, 6000, 800, 150, 1200),
                                         'search': (150, 60, 6, 0, 10)}[tier]
+    n_resub = {'quick': 250, 'thorough': 4000, 'search': 40}[tier]
     # three small, readable cases first (they become the evidence samples)
     cases = [
         {'kind': 'toy', 'codec': 'zstd', 'shape': 'rechunk', 'chunks': [[1, 2, 3], [], [4, 5, 6, 7, 8, 9]],
@@ -440,8 +515,10 @@ def generate(rng, tier):
     cases += [gen_trunc_all(rng) for _ in range(n_ta)]
     cases += [gen_allcuts(rng, 2) for _ in range(n_ac)]
     cases += [gen_bad(rng) for _ in range(n_bad)]
+    cases += [gen_resub(rng, tier) for _ in range(n_resub)]
     if tier != 'search':
         cases += exhaustive_toy()
+        cases += exhaustive_resub(rng)
         # every (codec, data kind) with a multi-buffer size, trailing empty chunk included
         for codec in ('gzip', 'zstd'):
             for g in ('zeros', 'rand', 'rep', 'text', 'mixed'):
@@ -508,8 +585,77 @@ def ref_check(codec, comp, data):
     return None
 
 
+def run_resub(case):
+    """one operator / one piped observable, subscribed once per entry of case['subs']"""
+    import rx
+    comp_op, decomp_op = wrappers(case['codec'])
+    side, st = case['side'], []
+    for s in case['subs']:
+        data = make_data(s['data'])
+        e = {'data': data, 'comp_ref': None, 'cur': [], 'steps': [], 'log': None, 'disp': None, 'subject': None}
+        if side == 'c':
+            stream = data
+        else:
+            comp = payload(drive(comp_op(), by_sizes(data, [1000])))          # a fresh compress operator
+            e['comp_ref'] = ref_check(case['codec'], comp, data)
+            stream = comp[:int(s['at'] * len(comp))] if s['fate'] == 'trunc' else comp
+        e['stream'] = stream
+        e['inputs'] = by_sizes(stream, s['sizes'], s['lead'], s['tail'])
+        st.append(e)
+    router, crosstalk, pending = LogRouter(), 0, []
+
+    def new_subject(*_):
+        subj = Subject()
+        st[pending[-1]]['subject'] = subj
+        return subj
+
+    def observer_of(e):
+        return dict(on_next=lambda x: e['cur'].append(('n', x)),
+                    on_error=lambda err: e['cur'].append(('e', type(err).__name__, str(err)[:80])),
+                    on_completed=lambda: e['cur'].append(('c',)))
+
+    with patched('rec', router):
+        op = comp_op() if side == 'c' else decomp_op()                         # the operator: built ONCE
+        piped = rx.defer(new_subject).pipe(op) if case['share'] == 'observable' else None     # built ONCE
+        for i, act in resub_schedule(case, [len(e['inputs']) for e in st]):
+            e = st[i]
+            if act == 'sub':
+                pending.append(i)
+                e['log'] = router.fresh()
+                o = piped if piped is not None else op(new_subject())
+                e['disp'] = o.subscribe(**observer_of(e))
+            elif act == 'complete':
+                e['subject'].on_completed()
+            elif act == 'dispose':
+                e['disp'].dispose()
+            else:
+                e['subject'].on_next(e['inputs'][act[1]])
+            e['steps'].append(e['cur'][:])
+            del e['cur'][:]
+            crosstalk += sum(1 for x in st if x is not e and x['cur'])       # events of a subscription that was not driven
+    subs = []
+    for s, e in zip(case['subs'], st):
+        data, out, steps = e['data'], payload(e['steps']), e['steps']
+        o = {'fate': s['fate'], 'n_chunks': len(e['inputs']), 'n_pushed': max(0, len(steps) - 2), 'data_len': len(data),
+             'data_sha': hashlib.sha1(data).hexdigest(), 'stream_len': len(e['stream']), 'end': ending(steps),
+             'out_len': len(out), 'out_sha': hashlib.sha1(out).hexdigest(), 'at_subscribe': jev(steps[:1])[0],
+             'comp_ref': e['comp_ref']}
+        if side == 'c' and s['fate'] == 'full':
+            o['ref'] = ref_check(case['codec'], out, data)
+            back = drive(decomp_op(), by_sizes(out, s['re'], 0, s['tail']))   # a fresh decompress operator
+            o['rt_end'], o['rt_ok'] = ending(back), payload(back) == data
+        if side == 'd':
+            o['out_is_prefix'] = data.startswith(out)
+        if s['fate'] != 'dispose':
+            o['trace'] = trace_obs(e['log'], steps, e['inputs'])
+        subs.append(o)
+    return {'subs': subs, 'crosstalk': crosstalk}
+
+
 def run_impl(case):
     comp_op, decomp_op = wrappers(case['codec'])
+    if case['kind'] == 'resub':
+        return run_resub(case)
     if case['kind'] == 'toy':
         with patched('toy'):
             cst = drive(comp_op(), [bytes(c) for c in case['chunks']])
@@ -593,7 +739,49 @@ def run_impl(case):
 # ---------------------------------------------------------------------------------------------
 # oracle (model-free): C16 as written, on the real codecs
 # ---------------------------------------------------------------------------------------------
+def oracle_resub(case, obs):
+    """every subscription of the one operator / piped observable is a stream in its own right"""
+    codec, side = case['codec'], case['side']
+    if 'raised' in obs:
+        return {'sig': codec + ':resub:raised', 'what': 'wrapper raised %s to the caller: %s' % (obs['raised'], obs.get('msg'))}
+    fates = [s['fate'] for s in case['subs']]
+    for j, o in enumerate(obs['subs']):
+        where = '%s.%s, one %s subscribed %d times (%s, fates %s), subscription #%d' % (
+            codec, 'compress' if side == 'c' else 'decompress', case['share'], len(fates),
+            'one after the other' if case['order'] == 'seq' else 'alive at once, chunks interleaved', fates, j + 1)
+        bad = None
+        if o['comp_ref']:
+            bad = ('invalid-file', 'a fresh compress did not give a valid standalone file: %s' % o['comp_ref'])
+        elif o['fate'] == 'dispose':
+            continue
+        elif side == 'c':
+            if o['end'] != 'completed':
+                bad = ('compress-failed', 'compress ended with %s after %d of %d chunks' % (o['end'], o['n_pushed'], o['n_chunks']))
+            elif o['ref']:
+                bad = ('invalid-file', 'its output is not a valid standalone %s file of ITS %d payload bytes: %s'
+                       % (codec, o['data_len'], o['ref']))
+            elif o['rt_end'] != 'completed' or not o['rt_ok']:
+                bad = ('roundtrip', 'decompress(rechunk(its output)) != its payload (end %s)' % o['rt_end'])
+        elif o['fate'] == 'full':
+            if o['end'] != 'completed' or o['out_len'] != o['data_len'] or o['out_sha'] != o['data_sha']:
+                bad = ('roundtrip', 'decompress of a complete stream: end=%s, %d of %d bytes%s' % (
+                    o['end'], o['out_len'], o['data_len'], '' if o['out_is_prefix'] else ', not a prefix of its payload'))
+        else:
+            if not o['end'].startswith('error'):
+                bad = ('truncation-completed', 'stream cut at %d bytes ended with %s' % (o['stream_len'], o['end']))
+            elif not o['out_is_prefix']:
+                bad = ('truncation-wrong-data', 'truncated stream delivered bytes that are not a prefix of its payload')
+        if bad:
+            return {'sig': '%s:resub:%s' % (codec, bad[0]), 'what': where + ': ' + bad[1]}
+    if obs['crosstalk']:
+        return {'sig': codec + ':resub:crosstalk', 'what': 'a subscription received events while another one was driven (%d times)'
+                % obs['crosstalk']}
+    return None
+
+
 def oracle(case, obs):
+    if case['kind'] == 'resub':
+        return oracle_resub(case, obs)
     if case['kind'] != 'real':
         return None
     codec = case['codec']
@@ -641,6 +829,8 @@ def nontrivial(case, obs):
         return False
     if case['kind'] == 'toy':
         return len(case['chunks']) >= 2 and len(case['rechunk']) >= 2
+    if case['kind'] == 'resub':
+        return any(o['data_len'] > 0 and o['fate'] != 'dispose' for o in obs['subs'][1:])
     if case['kind'] == 'real' and obs['data_len'] > 0:
         if case['mode'] in ('trunc_all', 'allcuts', 'trunc_some'):
             return True
@@ -649,7 +839,9 @@ def nontrivial(case, obs):
 
 
 def describe(cases, obs):
-    d = {'toy': 0, 'real': 0, 'bad': 0, 'modes': {}, 'codecs': {}, 'data_kinds': {}, 'max_data_len': 0,
+    d = {'toy': 0, 'real': 0, 'bad': 0, 'resub': 0, 'resub_subscriptions': 0, 'resub_wrapper_x_sharing_x_order': {},
+         'resub_fate_of_first_subscription': {}, 'resub_full_subscription_after_a_disposed_one': 0,
+         'resub_max_payload': 0, 'modes': {}, 'codecs': {}, 'data_kinds': {}, 'max_data_len': 0,
          'max_comp_len': 0, 'truncation_runs': 0, 'cut_placement_runs': 0, 'toy_shapes': {},
          'rechunks_with_trailing_empty_chunk': 0, 'max_rechunk_chunks': 0, 'incompressible_cases': 0}
     for c, o in zip(cases, obs):
@@ -659,6 +851,16 @@ def describe(cases, obs):
             d['toy_shapes'][c['shape']] = d['toy_shapes'].get(c['shape'], 0) + 1
             if c['rechunk'] and not c['rechunk'][-1]:
                 d['rechunks_with_trailing_empty_chunk'] += 1
+        if c['kind'] == 'resub' and 'raised' not in o:
+            d['resub_subscriptions'] += len(c['subs'])
+            key = '%s.%s/%s/%s' % (c['codec'], c['side'], c['share'], c['order'])
+            d['resub_wrapper_x_sharing_x_order'][key] = d['resub_wrapper_x_sharing_x_order'].get(key, 0) + 1
+            f = c['subs'][0]['fate']
+            d['resub_fate_of_first_subscription'][f] = d['resub_fate_of_first_subscription'].get(f, 0) + 1
+            fs = [x['fate'] for x in c['subs']]
+            d['resub_full_subscription_after_a_disposed_one'] += any(
+                a == 'dispose' and 'full' in fs[i + 1:] for i, a in enumerate(fs))
+            d['resub_max_payload'] = max([d['resub_max_payload']] + [x['data_len'] for x in o['subs']])
         if c['kind'] != 'real' or 'raised' in o:
             continue
         d['modes'][c['mode']] = d['modes'].get(c['mode'], 0) + 1
@@ -712,6 +914,10 @@ def the_trace(case, obs):
     """which recorded run of a real/bad case is replayed through the model: (side, trace)"""
     if case['kind'] == 'bad':
         return obs['side'], obs['trace']
+    if case['kind'] == 'resub':
+        # one of the subscriptions whose source completed (the generator guarantees there is one)
+        done = [o for o in obs['subs'] if 'trace' in o]
+        return case['side'], done[case['iseed'] % len(done)]['trace']
     if case['mode'] in ('roundtrip', 'trunc_some'):
         # alternate between the compress trace and a decompress trace
         if case['data']['seed'] % 3 == 0:
@@ -750,6 +956,12 @@ def coq_model_expr(case):
 
 def neighbours(case, rng):
     out = []
+    if case['kind'] == 'resub':
+        for _ in range(20):
+            c = gen_resub(rng, 'quick')
+            c['codec'], c['share'] = case['codec'], case['share']
+            out.append(c)
+        return out
     for _ in range(10):
         c = gen_real(rng, 'quick', mode='roundtrip', big=False)
         c['codec'] = case['codec']
